@@ -273,6 +273,34 @@ def _events(args):
     return ev
 
 
+def _corrupt(ev, rnd):
+    """binding control: one observed row field / attribute value / re-parse verdict changed"""
+    if ev[0] == "gff" and ev[3]:
+        r = rnd.choice(ev[3])
+        what = rnd.choice(["start", "strand", "cols", "type"])
+        if what == "start":
+            r[4] += 1
+            r[5] += 1
+        elif what == "strand":
+            r[7] = {"+": "-", "-": "+"}.get(r[7], "+")
+        elif what == "cols":
+            r[0] = 8
+        else:
+            r[3] = "exon" if r[3] != "exon" else "CDS"
+        return ev
+    if ev[0] == "attrs" and ev[2]:
+        want = rnd.choice(ev[2])
+        for kv in ev[3]:
+            if kv[0] == want[0]:
+                kv[1] = list(kv[1]) + ["~corrupted~"]
+                return ev
+        return None
+    if ev[0] == "reparse" and ev[2][0] == "v" and ev[2][1]:
+        ev[6] = False
+        return ev
+    return None
+
+
 def _key(ev, clause):
     if clause == "reparse:transcript-biotype-survives":
         return "gff3:transcript-biotype-from-gene-row"
@@ -291,7 +319,7 @@ def run(chk):
     n = 25 if quick else 600
     parts = pmap(_events, [(chk.seed * 1201 + i, n) for i in range(32)])
     evs = [e for p in parts for e in p]
-    chk.validate("C11Trace", evs, shard=400, label="gff3", keyfn=_key)
+    chk.validate("C11Trace", evs, shard=400, label="gff3", keyfn=_key, corrupt=_corrupt)
     chk.nontrivial = len({str(e[2])[:400] for e in evs if e[0] == "gff"}) + sum(1 for e in evs if e[0] == "reparse")
     chk.extra["files"] = sum(1 for e in evs if e[0] == "gff")
     chk.extra["reparsed_files"] = sum(1 for e in evs if e[0] == "reparse")
